@@ -27,7 +27,7 @@ func c07Property(t *rapid.T) {
 	g := newHistGen(t, x)
 	g.plainAmountsForAdmins = true
 	// victims of every failure cause, some of which fail after the contract already wrote state or posted events
-	g.weights = append(g.weights, "malformed", "poor", "poor", "badsig", "ibtp-badproof", "xvm", "late-failure", "late-failure", "late-failure", "late-failure", "script", "script", "script", "script", "script", "eth", "eth", "eth")
+	g.weights = append(g.weights, "malformed", "poor", "poor", "badsig", "ibtp-badproof", "xvm", "late-failure", "late-failure", "late-failure", "late-failure", "script", "script", "script", "script", "script", "eth", "eth", "eth", "fresh-poor", "fresh-poor")
 	scriptHeavy := rapid.IntRange(0, 2).Draw(t, "scriptHeavy") == 0
 	if scriptHeavy {
 		// blocks of mostly scripted transactions over four keys: writes, deletes and re-writes of one key by
